@@ -23,12 +23,21 @@ def parseRhs (j : Json) : M Rhs := do
   match getStr? j "k" with
   | some "var" => do pure (.var (← reqM (getNat? j "v")))
   | some "val" => do pure (.val (← reqM ((getField? j "v").bind ArrV.fromJson?)))
+  | some "ndview" => do pure (.ndview (← reqM (getNat? j "v")))
   | _ => fail .badOp
 
 /-- the object a right operand denotes, as Array value or Vector value -/
 def rhsValue (r : Rhs) : M (Sum ArrV VecV) := do
   match r with
   | .val a => pure (.inl a)
+  | .ndview v => do
+    -- a plain ndarray operand: the values the buffer holds *now*, without a unit
+    let id ← lookupVar v
+    match ← getObj id with
+    | .arr _ => do
+      let a ← readArr id
+      pure (.inl { a with unit := U.one, name := "" })
+    | _ => fail .typeErr
   | .var v => do
     let id ← lookupVar v
     match ← getObj id with
